@@ -513,7 +513,11 @@ def op_to_nx(w, ins):
     roots = [a] + [w.pick(i, m) for i in ins.get('more', [])]
     rr = [node_of(s.ref) for s in roots]
     D = seams.DD
-    ok, gr = call(w, D.bdd.to_nx, g.raw, set(rr))
+    # `roots`: annotated as a set, documented as "iterable of edges"
+    kind = ins.get('cont', 0)
+    arg = [set(rr), list(rr), tuple(rr), iter(list(rr)), (x for x in list(rr))][kind % 5]
+    ok, gr = call(w, D.bdd.to_nx, g.raw, arg)
+    del arg
     expect_ok(w, ok, gr, 'C18', 'to_nx')
     reach = _reach(sn, rr)
     if set(gr.nodes) != reach:
@@ -766,7 +770,7 @@ def gen_sizes(w, r, cfg):
 
 
 def gen_to_nx(w, r, cfg):
-    return dict(op='to_nx', a=_ri(r), more=[_ri(r) for _ in range(r.randint(0, 2))])
+    return dict(op='to_nx', a=_ri(r), more=[_ri(r) for _ in range(r.randint(0, 2))], cont=r.randrange(5))
 
 
 def gen_dump_dot(w, r, cfg):
